@@ -61,6 +61,9 @@ type Decoder struct {
 	p      []byte
 	offset int
 	mode   DecoderMode
+	// extent of the field key read by the most recent DecodeTag() call, used by Skip() to locate the
+	// start of the field even when the key was not encoded with the minimal number of bytes
+	tagStart, tagEnd int
 }
 
 // NewDecoder initializes a new Protobuf decoder to read the provided buffer.
@@ -138,7 +141,9 @@ func (d *Decoder) DecodeTag() (tag int, wireType WireType, err error) {
 	if n < 1 || v < 1 || (v>>3) > MaxTagValue {
 		return 0, -1, fmt.Errorf("invalid tag value (%d) at byte %d: %w", v, d.offset, ErrInvalidFieldTag)
 	}
+	d.tagStart = d.offset
 	d.offset += n
+	d.tagEnd = d.offset
 	return int(v >> 3), WireType(v & 0x7), nil
 }
 
@@ -932,6 +937,12 @@ func (d *Decoder) Skip(tag int, wt WireType) ([]byte, error) {
 	// account for skipping the first field
 	if bof < 0 {
 		bof = 0
+	}
+	// if the key of this field was just read by DecodeTag() use its real extent: a key is not
+	// necessarily encoded with the minimal number of bytes
+	if d.tagEnd == d.offset && d.tagEnd > d.tagStart {
+		bof = d.tagStart
+		sz = d.tagEnd - d.tagStart
 	}
 	// validate that the field we're skipping matches the specified tag and wire type
 	// . skip validation in fast mode
